@@ -79,7 +79,7 @@ From Coq Require Import NArith List Bool Arith.
 From PLV Require Import Base.PyStr Tok.PState Tok.Tokenizer Parse.Nodes Parse.Parser Parse.ParseWire
                         Gen.GenWalkerCtx Doc.DocGrammar Doc.DocGrammar2
                         Proofs.RoundTripTok Proofs.RoundTripRules Proofs.RoundTrip Proofs.RoundTripWs
-                        Proofs.RoundTrip2 Proofs.RoundTrip2Ws.
+                        Proofs.RoundTrip2 Proofs.RoundTrip2Ws Proofs.RoundTrip2Embed.
 Import ListNotations.
 
 (** ** The round trip: the strict parser, run with its own fuel on the written
@@ -567,3 +567,16 @@ Example C02_comment_before_argument_nonvacuous :
   length (unparse2 d) = 49%nat /\
   length (fst (tree_of2 default_ctx (walker_state default_ctx) 0 d)) = 3%nat.
 Proof. vm_compute. repeat split. Qed.
+
+Close Scope N_scope.
+
+(** ** The core grammar is a sub-grammar of the extended one: [up_doc] keeps the
+    side conditions, the written form and the meaning — so
+    [C02_parse_unparse_partial] is an instance of [C02_parse_unparse2_partial]
+    ([Proofs/RoundTrip2Embed.v: parse_unparse_from_extended]). *)
+Theorem C02_core_grammar_embeds : forall cx d,
+  ok_doc cx d = true ->
+  ok_doc2 cx (up_doc d) = true /\ unparse2 (up_doc d) = unparse d /\
+  tree_of2 cx (walker_state cx) 0 (up_doc d) = tree_of cx (walker_state cx) 0 d.
+Proof. exact core_embeds. Qed.
+Print Assumptions C02_core_grammar_embeds.
